@@ -842,12 +842,11 @@ async fn build_authoritative_response(
         }
     };
 
-    // A delegation's NS records in place of an answer make this a referral.
+    // A delegation's NS records in place of an answer make this a referral, whatever the query
+    // type: the only NS records the zone is authoritative for are those of its origin.
     let is_referral = answers.as_ref().is_some_and(|answers| {
         answers.iter().next().is_some_and(|r| {
-            r.record_type() == RecordType::NS
-                && query.query_type() != RecordType::NS
-                && query.query_type() != RecordType::ANY
+            r.record_type() == RecordType::NS && LowerName::from(&r.name) != *handler.origin()
         })
     });
 
